@@ -1,4 +1,5 @@
 import ArimModel.Das
+import ArimProofs.Tie.C02
 import ArimProofs.Lemmas.Das
 import Mathlib.Data.Rat.Floor
 import Mathlib.Tactic.NormNum.Basic
@@ -465,6 +466,52 @@ theorem das_definition_unweighted (sinc : K → K) (p : Problem K K) (it : Inter
   congr 1
   refine Finset.sum_congr rfl (fun k _ => ?_)
   rw [termNoAmp_eq_interp, locB_eq_locA]
+
+/-! ### The same statements about the kernels as translated from the source on this run
+
+`Src.das_*` (file `Generated/SrcC02.lean`) are the per-image-point translations of `_delay_and_sum_noamp`,
+`_delay_and_sum_noamp_linear`, `_delay_and_sum_amplitudes_nearest`, `_delay_and_sum_amplitudes_linear` made from
+`/repo/src/arim/im/das.py` on every run; `Tie/C02.lean` identifies them with `dasNoAmp` / `dasAmp`. -/
+open Arim.Tie.C02
+
+/-- **the translated nearest kernel is the definition**: `(1/N) Σ_k g_k[round τ_k]` or the fill value -/
+theorem src_das_definition_nearest (sinc : K → K) (wt : Nat → Nat → K) (tx rx : Nat → Nat) (ltx lrx : Nat → Nat → K)
+    (dt t0 fill : K) (N n pt : Nat) :
+    Src.das_noamp_nearest (srcOps (stdOps sinc)) stdData wt tx rx ltx lrx ((stdOps sinc).ofInt 1 / dt) t0 fill N n pt =
+      (∑ k ∈ Finset.range N,
+        (interp (stdOps sinc) stdData .nearest n (wt k) ((ltx pt (tx k) + lrx pt (rx k) - t0) / dt)).getD fill) / (N : K) := by
+  rw [tie_noamp_nearest, das_definition_unweighted]; rfl
+
+/-- **the translated linear kernel is the definition** -/
+theorem src_das_definition_linear (sinc : K → K) (wt : Nat → Nat → K) (tx rx : Nat → Nat) (ltx lrx : Nat → Nat → K)
+    (dt t0 fill : K) (N n pt : Nat) :
+    Src.das_noamp_linear (srcOps (stdOps sinc)) stdData wt tx rx ltx lrx ((stdOps sinc).ofInt 1 / dt) t0 fill N n pt =
+      (∑ k ∈ Finset.range N,
+        (interp (stdOps sinc) stdData .linear n (wt k) ((ltx pt (tx k) + lrx pt (rx k) - t0) / dt)).getD fill) / (N : K) := by
+  rw [tie_noamp_linear, das_definition_unweighted]; rfl
+
+/-- **amplitudes identically one, translated kernels**: the amplitude kernels give the uniform-amplitude image -/
+theorem src_das_amp_one (sinc : K → K) (wt : Nat → Nat → K) (tx rx : Nat → Nat) (ltx lrx : Nat → Nat → K)
+    (dt t0 fill : K) (N n pt : Nat) :
+    Src.das_amplitudes_nearest (srcOps (stdOps sinc)) stdData wt tx rx ltx lrx (fun _ _ => 1) (fun _ _ => 1) dt t0 fill N n pt
+        = Src.das_noamp_nearest (srcOps (stdOps sinc)) stdData wt tx rx ltx lrx ((stdOps sinc).ofInt 1 / dt) t0 fill N n pt
+      ∧ Src.das_amplitudes_linear (srcOps (stdOps sinc)) stdData wt tx rx ltx lrx (fun _ _ => 1) (fun _ _ => 1) dt t0 fill N n pt
+        = Src.das_noamp_linear (srcOps (stdOps sinc)) stdData wt tx rx ltx lrx ((stdOps sinc).ofInt 1 / dt) t0 fill N n pt := by
+  rw [tie_amplitudes_nearest, tie_noamp_nearest, tie_amplitudes_linear, tie_noamp_linear]
+  exact ⟨das_amp_one sinc _ .nearest (Or.inl rfl) fill pt, das_amp_one sinc _ .linear (Or.inr rfl) fill pt⟩
+
+/-- **a lookup before the recorded window gives the fill value in the translated linear kernels** (the clause the
+truncating kernel of finding F6 broke): with a single timetrace and `loc < 0` the image value is `fill` -/
+theorem src_linear_fill_before_window (sinc : K → K) (wt : Nat → Nat → K) (tx rx : Nat → Nat) (ltx lrx : Nat → Nat → K)
+    (dt t0 fill : K) (n pt : Nat) (h : (ltx pt (tx 0) + lrx pt (rx 0) - t0) / dt < 0) :
+    Src.das_noamp_linear (srcOps (stdOps sinc)) stdData wt tx rx ltx lrx ((stdOps sinc).ofInt 1 / dt) t0 fill 1 n pt = fill := by
+  rw [src_das_definition_linear]
+  simp only [Finset.range_one, Finset.sum_singleton, Nat.cast_one, div_one]
+  have : interp (stdOps sinc) stdData .linear n (wt 0) ((ltx pt (tx 0) + lrx pt (rx 0) - t0) / dt) = none := by
+    show interpLinearB (stdOps sinc) stdData n (wt 0) _ = none
+    rw [← linearA_eq_linearB]
+    exact linear_none_of_neg sinc n (wt 0) _ h
+  rw [this]; rfl
 
 end Das
 
